@@ -325,6 +325,147 @@ fn impl_step(c: &StepCase) -> Option<((usize, usize), usize, usize, Vec<((usize,
 }
 
 
+
+// ---------- leg 0: the `casm!` macro denotes the instruction its text spells ----------
+// Expected instructions are written out as structs, independently of inline.rs.
+fn macro_oracle(failures: &mut Vec<String>) -> usize {
+    use cairo_lang_casm::casm;
+    let cr = |register: Register, offset: i16| CellRef { register, offset };
+    let ap = Register::AP;
+    let fp = Register::FP;
+    let imm = |v: i64| DerefOrImmediate::Immediate(BigInt::from(v).into());
+    let bin = |op: Operation, a: CellRef, b: DerefOrImmediate| ResOperand::BinOp(BinOpOperand { op, a, b });
+    let aeq = |a: CellRef, b: ResOperand, inc: bool| {
+        Instruction::new(InstructionBody::AssertEq(AssertEqInstruction { a, b }), inc)
+    };
+    let var = cr(fp, -3);
+    let mut n = 0;
+    let mut check = |text: &str, got: Vec<Instruction>, want: Vec<Instruction>| {
+        n += 1;
+        if got != want {
+            failures.push(format!(
+                "{{\"instruction\": {:?}, \"why\": {:?}}}",
+                text,
+                format!(
+                    "casm! macro produced `{}` for the text `{}` (which denotes `{}`)",
+                    got.iter().map(|i| i.to_string()).collect::<Vec<_>>().join("; "),
+                    text,
+                    want.iter().map(|i| i.to_string()).collect::<Vec<_>>().join("; ")
+                )
+            ));
+        }
+    };
+    macro_rules! chk {
+        ({ $($t:tt)* } => $want:expr) => {
+            check(stringify!($($t)*), casm! { $($t)* }.instructions, $want)
+        };
+    }
+    // cell_ref spellings on the left-hand side and as plain deref
+    chk!({ [ap + 5] = [fp + 7]; } => vec![aeq(cr(ap, 5), ResOperand::Deref(cr(fp, 7)), false)]);
+    chk!({ [fp + 5] = [ap + 7], ap++; } => vec![aeq(cr(fp, 5), ResOperand::Deref(cr(ap, 7)), true)]);
+    chk!({ [ap - 5] = [fp - 7]; } => vec![aeq(cr(ap, -5), ResOperand::Deref(cr(fp, -7)), false)]);
+    chk!({ [fp - 5] = [ap - 7]; } => vec![aeq(cr(fp, -5), ResOperand::Deref(cr(ap, -7)), false)]);
+    chk!({ [ap] = [fp]; } => vec![aeq(cr(ap, 0), ResOperand::Deref(cr(fp, 0)), false)]);
+    chk!({ [fp] = [ap], ap++; } => vec![aeq(cr(fp, 0), ResOperand::Deref(cr(ap, 0)), true)]);
+    chk!({ [&var + 2] = [ap - 2]; } => vec![aeq(cr(fp, -1), ResOperand::Deref(cr(ap, -2)), false)]);
+    chk!({ [&var - 2] = [ap + 2]; } => vec![aeq(cr(fp, -5), ResOperand::Deref(cr(ap, 2)), false)]);
+    chk!({ [&var] = [ap + 1]; } => vec![aeq(cr(fp, -3), ResOperand::Deref(cr(ap, 1)), false)]);
+    // immediates
+    chk!({ [ap + 0] = 17; } => vec![aeq(cr(ap, 0), ResOperand::Immediate(BigInt::from(17).into()), false)]);
+    chk!({ [ap + 0] = (-17); } => vec![aeq(cr(ap, 0), ResOperand::Immediate(BigInt::from(-17).into()), false)]);
+    // binary operations
+    chk!({ [ap + 0] = [fp + 1] + [ap - 2]; } => vec![aeq(cr(ap, 0), bin(Operation::Add, cr(fp, 1), DerefOrImmediate::Deref(cr(ap, -2))), false)]);
+    chk!({ [ap + 0] = [ap - 1] * [fp - 2], ap++; } => vec![aeq(cr(ap, 0), bin(Operation::Mul, cr(ap, -1), DerefOrImmediate::Deref(cr(fp, -2))), true)]);
+    chk!({ [ap + 0] = [fp + 1] + 5; } => vec![aeq(cr(ap, 0), bin(Operation::Add, cr(fp, 1), imm(5)), false)]);
+    chk!({ [ap + 0] = [ap + 1] * (-5); } => vec![aeq(cr(ap, 0), bin(Operation::Mul, cr(ap, 1), imm(-5)), false)]);
+    // double dereference: every register x inner-offset sign x outer-offset spelling
+    chk!({ [ap + 0] = [[ap + 1]]; } => vec![aeq(cr(ap, 0), ResOperand::DoubleDeref(cr(ap, 1), 0), false)]);
+    chk!({ [ap + 0] = [[ap - 1]]; } => vec![aeq(cr(ap, 0), ResOperand::DoubleDeref(cr(ap, -1), 0), false)]);
+    chk!({ [ap + 0] = [[fp + 1]]; } => vec![aeq(cr(ap, 0), ResOperand::DoubleDeref(cr(fp, 1), 0), false)]);
+    chk!({ [ap + 0] = [[fp - 1]]; } => vec![aeq(cr(ap, 0), ResOperand::DoubleDeref(cr(fp, -1), 0), false)]);
+    chk!({ [ap + 0] = [[ap]]; } => vec![aeq(cr(ap, 0), ResOperand::DoubleDeref(cr(ap, 0), 0), false)]);
+    chk!({ [ap + 0] = [[fp]]; } => vec![aeq(cr(ap, 0), ResOperand::DoubleDeref(cr(fp, 0), 0), false)]);
+    chk!({ [ap + 0] = [[ap + 1] + 2]; } => vec![aeq(cr(ap, 0), ResOperand::DoubleDeref(cr(ap, 1), 2), false)]);
+    chk!({ [ap + 0] = [[ap + 1] - 2]; } => vec![aeq(cr(ap, 0), ResOperand::DoubleDeref(cr(ap, 1), -2), false)]);
+    chk!({ [ap + 0] = [[ap - 1] + 2]; } => vec![aeq(cr(ap, 0), ResOperand::DoubleDeref(cr(ap, -1), 2), false)]);
+    chk!({ [ap + 0] = [[ap - 1] - 2]; } => vec![aeq(cr(ap, 0), ResOperand::DoubleDeref(cr(ap, -1), -2), false)]);
+    chk!({ [ap + 0] = [[fp + 1] + 2]; } => vec![aeq(cr(ap, 0), ResOperand::DoubleDeref(cr(fp, 1), 2), false)]);
+    chk!({ [ap + 0] = [[fp + 1] - 2]; } => vec![aeq(cr(ap, 0), ResOperand::DoubleDeref(cr(fp, 1), -2), false)]);
+    chk!({ [ap + 0] = [[fp - 1] + 2]; } => vec![aeq(cr(ap, 0), ResOperand::DoubleDeref(cr(fp, -1), 2), false)]);
+    chk!({ [ap + 0] = [[fp - 1] - 2]; } => vec![aeq(cr(ap, 0), ResOperand::DoubleDeref(cr(fp, -1), -2), false)]);
+    chk!({ [ap + 0] = [[fp] - 2]; } => vec![aeq(cr(ap, 0), ResOperand::DoubleDeref(cr(fp, 0), -2), false)]);
+    chk!({ [ap + 0] = [[ap] + 2]; } => vec![aeq(cr(ap, 0), ResOperand::DoubleDeref(cr(ap, 0), 2), false)]);
+    chk!({ [ap + 0] = [[&var]]; } => vec![aeq(cr(ap, 0), ResOperand::DoubleDeref(cr(fp, -3), 0), false)]);
+    chk!({ [ap + 0] = [[&var] + 4]; } => vec![aeq(cr(ap, 0), ResOperand::DoubleDeref(cr(fp, -3), 4), false)]);
+    // control flow
+    let call = |target: DerefOrImmediate, relative: bool| {
+        Instruction::new(InstructionBody::Call(CallInstruction { target, relative }), false)
+    };
+    let jump = |target: DerefOrImmediate, relative: bool, inc: bool| {
+        Instruction::new(InstructionBody::Jump(JumpInstruction { target, relative }), inc)
+    };
+    let jnz = |jump_offset: DerefOrImmediate, condition: CellRef, inc: bool| {
+        Instruction::new(InstructionBody::Jnz(JnzInstruction { jump_offset, condition }), inc)
+    };
+    chk!({ call rel 7; } => vec![call(imm(7), true)]);
+    chk!({ call abs 7; } => vec![call(imm(7), false)]);
+    chk!({ call rel [fp - 3]; } => vec![call(DerefOrImmediate::Deref(cr(fp, -3)), true)]);
+    chk!({ call abs [ap + 3]; } => vec![call(DerefOrImmediate::Deref(cr(ap, 3)), false)]);
+    chk!({ jmp rel 7; } => vec![jump(imm(7), true, false)]);
+    chk!({ jmp rel (-7), ap++; } => vec![jump(imm(-7), true, true)]);
+    chk!({ jmp abs 7; } => vec![jump(imm(7), false, false)]);
+    chk!({ jmp abs [fp - 1]; } => vec![jump(DerefOrImmediate::Deref(cr(fp, -1)), false, false)]);
+    chk!({ jmp rel 5 if [ap - 1] != 0; } => vec![jnz(imm(5), cr(ap, -1), false)]);
+    chk!({ jmp rel 5 if [fp + 1] != 0, ap++; } => vec![jnz(imm(5), cr(fp, 1), true)]);
+    chk!({ jmp 5 if [fp - 4] != 0; } => vec![jnz(imm(5), cr(fp, -4), false)]);
+    chk!({ jmp rel [ap + 2] if [fp - 4] != 0; } => vec![jnz(DerefOrImmediate::Deref(cr(ap, 2)), cr(fp, -4), false)]);
+    chk!({ ap += 3; } => vec![Instruction::new(InstructionBody::AddAp(AddApInstruction { operand: ResOperand::Immediate(BigInt::from(3).into()) }), false)]);
+    chk!({ ap += [fp - 3]; } => vec![Instruction::new(InstructionBody::AddAp(AddApInstruction { operand: ResOperand::Deref(cr(fp, -3)) }), false)]);
+    chk!({ ret; } => vec![Instruction::new(InstructionBody::Ret(RetInstruction {}), false)]);
+    // a sequence keeps its order and the code offsets add up
+    {
+        let ctx = casm! { [ap + 0] = 1, ap++; jmp rel 3 if [ap - 1] != 0; [ap + 0] = [[fp - 3] - 1], ap++; ret; };
+        let sizes: usize = ctx.instructions.iter().map(|i| i.body.op_size()).sum();
+        if ctx.current_code_offset != sizes || ctx.instructions.len() != 4 {
+            failures.push(format!(
+                "{{\"instruction\": \"casm! sequence\", \"why\": \"current_code_offset {} but the instructions occupy {}\"}}",
+                ctx.current_code_offset, sizes
+            ));
+        }
+        n += 1;
+    }
+    n
+}
+
+/// Decode-level reading of a Blake2s instruction: dst = byte_count, op0 = state, op1 = message.
+fn blake_oracle(i: &Instruction, ws: &[BigInt], failures: &mut Vec<String>) {
+    let InstructionBody::Blake2sCompress(b) = &i.body else { return };
+    let Some(w) = ws[0].to_u128() else { return };
+    let Ok(d) = decode_instruction(w) else { return };
+    let same = |r: Register, v: vi::Register| matches!((r, v), (Register::AP, vi::Register::AP) | (Register::FP, vi::Register::FP));
+    let op1_ok = matches!(
+        (b.message.register, d.op1_addr),
+        (Register::AP, vi::Op1Addr::AP) | (Register::FP, vi::Op1Addr::FP)
+    );
+    let ext_ok = matches!(
+        (b.finalize, d.opcode_extension),
+        (false, vi::OpcodeExtension::Blake) | (true, vi::OpcodeExtension::BlakeFinalize)
+    );
+    if !(same(b.byte_count.register, d.dst_register)
+        && d.off0 == b.byte_count.offset as isize
+        && same(b.state.register, d.op0_register)
+        && d.off1 == b.state.offset as isize
+        && op1_ok
+        && d.off2 == b.message.offset as isize
+        && ext_ok)
+    {
+        failures.push(format!(
+            "{{\"instruction\": {:?}, \"why\": \"cairo-vm decodes the word as dst={:?}{:+} op0={:?}{:+} op1={:?}{:+} ext={:?}: not the byte_count / state / message cells the instruction names\"}}",
+            i.to_string(), d.dst_register, d.off0, d.op0_register, d.off1, d.op1_addr, d.off2, d.opcode_extension
+        ));
+    }
+}
+
 // ---------- the property oracle, on the implementation only ----------
 // An independent reading of the CASM syntax (no flags): given the machine before and after one
 // real VM step of the encoded instruction, did the VM do what the instruction says?
@@ -708,6 +849,7 @@ fn main() {
     }
     let mut enc_lines = vec![];
     let mut size_failures: Vec<String> = vec![];
+    let n_macro = macro_oracle(&mut size_failures);
     let mut encoded: Vec<(Instruction, Vec<BigInt>)> = vec![];
     let mut n_rejected = 0;
     for i in &cases {
@@ -721,6 +863,7 @@ fn main() {
         };
         enc_lines.push(format!("({}, {}, {})", instr(i), e, size));
         if let Some(ws) = &enc {
+            blake_oracle(i, ws, &mut size_failures);
             if ws.len() != size {
                 size_failures.push(format!(
                     "{{\"instruction\": {:?}, \"why\": \"encoded length {} != op_size {}\"}}",
@@ -876,7 +1019,7 @@ fn main() {
     let b = shard("dec", "dec_case", &dec_lines, 700);
     let c = shard("step", "step_case", &step_lines, 150);
     let summary = format!(
-        "{{\"enc_cases\": {}, \"enc_rejected_by_impl\": {}, \"dec_cases\": {}, \"dec_ok\": {}, \"step_cases\": {}, \"step_ok\": {}, \"shards\": {}, \"oracle_failures\": {}}}",
+        "{{\"enc_cases\": {}, \"enc_rejected_by_impl\": {}, \"dec_cases\": {}, \"dec_ok\": {}, \"step_cases\": {}, \"step_ok\": {}, \"shards\": {}, \"oracle_failures\": {}, \"macro_spellings\": {}}}",
         enc_lines.len(),
         n_rejected,
         dec_lines.len(),
@@ -884,7 +1027,8 @@ fn main() {
         step_lines.len(),
         n_step_ok,
         a + b + c,
-        oracle_failures.len() + size_failures.len()
+        oracle_failures.len() + size_failures.len(),
+        n_macro
     );
     fs::write(format!("{}/summary.json", out_dir), &summary).unwrap();
     fs::write(format!("{}/oracle_failures.json", out_dir), format!("[{}]", oracle_failures.iter().chain(size_failures.iter()).cloned().collect::<Vec<_>>().join(",\n"))).unwrap();
